@@ -362,6 +362,31 @@ fn check_value<T: Serialize + DeserializeOwned + Debug>(sub: &str, tyname: &str,
     Ok(it)
 }
 
+#[derive(Serialize, serde::Deserialize, Debug, Clone, PartialEq, Eq, PartialOrd, Ord)]
+pub struct Id(pub String);
+
+/// Values of types the statement does not cover (128-bit integers): refusing is
+/// fine; producing a value that differs from serde_json's is not.
+fn check_wide<T: Serialize + Debug>(sub: &str, tyname: &str, x: &T, st: &mut Stats) -> CaseResult {
+    let want = serde_json::to_value(x);
+    let case = json!({"type": tyname, "value": format!("{:?}", x)});
+    for (route, got) in [("from_serializable", Variable::from_serializable(x).map(jmespath::Rcvar::new)), ("search", jmespath::compile("@").unwrap().search(x))] {
+        match (&want, got) {
+            (_, Err(_)) => st.class("wide-integer:refused"),
+            (Ok(w), Ok(g)) => {
+                if !var_to_j(&g).exact_eq(&J::from_value(w)) {
+                    return Err(Failure::new(sub, "searchable-value-differs-from-json-image", format!("{} of {:?} gives {} but serde_json gives {}", route, x, g, w), case));
+                }
+                st.class("wide-integer:converted");
+            }
+            (Err(e), Ok(g)) => {
+                return Err(Failure::new(sub, "searchable-value-differs-from-json-image", format!("{} of {:?} gives {} but serde_json refuses it ({})", route, x, g, e), case));
+            }
+        }
+    }
+    Ok(())
+}
+
 fn compare_decoded<T: Serialize + Debug>(sub: &str, sig: &str, want: &Result<T, String>, got: &Result<T, String>, case: &serde_json::Value) -> CaseResult {
     match (want, got) {
         (Ok(a), Ok(b2)) => {
@@ -462,7 +487,42 @@ fn typed(src: &mut Src, st: &mut Stats, _env: &Env) -> CaseResult {
             }
             check_value("typed", "BTreeMap<String, E>", &m, st)?
         }
-        _ => match src.below(5) {
+        _ => match src.below(8) {
+            5 => {
+                // map keys that are not plain strings on the Rust side: a newtype around String
+                let mut m: BTreeMap<Id, i8> = BTreeMap::new();
+                for _ in 0..src.below(4) {
+                    m.insert(Id(gen_string(src)), src.byte() as i8);
+                }
+                check_value("typed", "BTreeMap<Id, i8>", &m, st)?
+            }
+            6 => {
+                // (integer-keyed maps are outside the statement: "string-keyed maps"; the library refuses them)
+                let mut m: BTreeMap<Id, Vec<Id>> = BTreeMap::new();
+                for _ in 0..src.below(4) {
+                    m.insert(Id(gen_string(src)), vec![Id(gen_string(src))]);
+                }
+                check_value("typed", "BTreeMap<Id, Vec<Id>>", &(m, Id(gen_string(src))), st)?
+            }
+            7 => {
+                // 128-bit integers are outside the statement ("8..64-bit integers"): the library
+                // may refuse them, but a value it does produce is the one serde_json produces
+                let v: i128 = match src.below(6) {
+                    0 => src.range(-5, 5) as i128,
+                    1 => i64::MIN as i128 - src.below(3) as i128,
+                    2 => u64::MAX as i128 + src.below(3) as i128 - 1,
+                    3 => i128::MIN + src.below(2) as i128,
+                    4 => -(1i128 << 64) + src.range(-1, 1) as i128,
+                    _ => (src.u64() as i128) * if src.flip() { -3 } else { 1 },
+                };
+                st.eval();
+                check_wide("typed", "i128", &v, st)?;
+                if v >= 0 {
+                    check_wide("typed", "u128", &(v as u128), st)?;
+                }
+                check_wide("typed", "(i128, String)", &(v, "x".to_string()), st)?;
+                String::new()
+            }
             0 => check_value("typed", "u64", &gen_u64(src), st)?,
             1 => check_value("typed", "i64", &gen_i64(src), st)?,
             2 => check_value("typed", "char", &gen_char_v(src), st)?,
